@@ -442,12 +442,21 @@ impl<B: Body> RequestBuilder<B> {
         let headers = &mut prepped.headers;
 
         header_insert(headers, CONNECTION, "close")?;
+        // The body decides how the request is framed, whatever the session or the caller has put
+        // into the header map: a leftover Content-Length or Transfer-Encoding would contradict it.
         match prepped.body.kind()? {
-            BodyKind::Empty => (),
+            BodyKind::Empty => {
+                headers.remove(TRANSFER_ENCODING);
+                if headers.get_all(CONTENT_LENGTH).iter().any(|val| val != "0") {
+                    headers.remove(CONTENT_LENGTH);
+                }
+            }
             BodyKind::KnownLength(len) => {
+                headers.remove(TRANSFER_ENCODING);
                 header_insert(headers, CONTENT_LENGTH, len)?;
             }
             BodyKind::Chunked => {
+                headers.remove(CONTENT_LENGTH);
                 header_insert(headers, TRANSFER_ENCODING, "chunked")?;
             }
         }
